@@ -6,6 +6,7 @@ pub mod c03;
 pub mod c05;
 pub mod c06;
 pub mod c07;
+pub mod c08;
 pub mod c09;
 pub mod c12;
 pub mod c13;
@@ -27,6 +28,7 @@ pub fn run(id: &str, ctx: &Ctx) -> Report {
         "C07" => c07::run(ctx),
         "C17" => c17::run(ctx),
         "C19" => c19::run(ctx),
+        "C08" => c08::run(ctx),
         "C09" => c09::run(ctx),
         "C12" => c12::run(ctx),
         "C13" => c13::run(ctx),
